@@ -20,6 +20,13 @@ type concPay struct {
 	n       string // "0", "pos", "" = unknown
 	errObj  types.Object
 	nObj    types.Object
+	halted  bool // the modelled part of the path is over (the read loop would go round again): nothing more is recorded
+}
+
+func (p *concPay) ev(s string) {
+	if !p.halted {
+		p.events = append(p.events, s)
+	}
 }
 
 func (p *concPay) Clone() Payload {
@@ -115,6 +122,25 @@ func (c *Ctx) parseFileModel() (*pfModel, error) {
 					if c.calleeName(call) == "parseWithOpts" {
 						isParser = true
 					}
+					// the read loop moved into a helper that is handed the input
+					if fn, ok := c.callee(call).(*types.Func); ok && fn.Pkg() != nil && fn.Pkg().Path() == bclPath {
+						if hd := c.funcDecls[fn]; hd != nil && hd.Body != nil {
+							for k, a := range call.Args {
+								if !m.isFile(c, a) {
+									continue
+								}
+								po := c.paramObj(hd, k)
+								ast.Inspect(hd.Body, func(x ast.Node) bool {
+									if hc, ok := x.(*ast.CallExpr); ok {
+										if sel, ok := hc.Fun.(*ast.SelectorExpr); ok && sel.Sel.Name == "Read" && c.isObj(sel.X, po) {
+											isReader = true
+										}
+									}
+									return true
+								})
+							}
+						}
+					}
 				}
 				return true
 			})
@@ -139,13 +165,38 @@ func (m *pfModel) isFile(c *Ctx, e ast.Expr) bool {
 
 func (c *Ctx) concHooks(m *pfModel) Hooks {
 	pay := func(st *State) *concPay { return st.P.(*concPay) }
+	var curSt *State
 	chName := func(e ast.Expr) string {
 		if id, ok := stripParens(e).(*ast.Ident); ok {
 			if n, ok := m.Chans[c.objOf(id)]; ok {
 				return n
 			}
+			// a channel handed to a helper: its parameter holds the channel's value
+			if curSt != nil {
+				if v, ok := curSt.Env[c.objOf(id)]; ok && v.K == vTag && v.Tag == "chan" {
+					return v.Data.(string)
+				}
+			}
 		}
 		return "?" + types.ExprString(e)
+	}
+	isFile := func(st *State, e ast.Expr) bool {
+		if m.isFile(c, e) {
+			return true
+		}
+		if id, ok := stripParens(e).(*ast.Ident); ok && st != nil {
+			if v, ok := st.Env[c.objOf(id)]; ok && v.K == vTag && v.Tag == "file" {
+				return true
+			}
+		}
+		return false
+	}
+	valOf := func(st *State, e ast.Expr) (Value, bool) {
+		if id, ok := stripParens(e).(*ast.Ident); ok {
+			v, ok := st.Env[c.objOf(id)]
+			return v, ok
+		}
+		return Value{}, false
 	}
 	describe := func(st *State, e ast.Expr, v Value) string {
 		p := pay(st)
@@ -153,6 +204,8 @@ func (c *Ctx) concHooks(m *pfModel) Hooks {
 		case v.K == vTag && v.Tag == "nil":
 			return "nil"
 		case c.isObj(e, p.errObj) && p.errObj != nil:
+			return "err"
+		case v.K == vTag && v.Tag == "readerr":
 			return "err"
 		case v.K == vTag:
 			return v.Tag
@@ -165,41 +218,44 @@ func (c *Ctx) concHooks(m *pfModel) Hooks {
 	var h Hooks
 	h.SameEffect = func(a, b *State) bool { return strings.Join(pay(a).events, ";") == strings.Join(pay(b).events, ";") }
 	h.Send = func(in *Interp, st *State, s *ast.SendStmt, v Value) {
-		pay(st).events = append(pay(st).events, "send "+chName(s.Chan)+" "+describe(st, s.Value, v))
+		curSt = st
+		pay(st).ev("send " + chName(s.Chan) + " " + describe(st, s.Value, v))
 	}
 	h.Recv = func(in *Interp, st *State, e *ast.UnaryExpr) (Value, bool) {
-		pay(st).events = append(pay(st).events, "recv "+chName(e.X))
+		curSt = st
+		pay(st).ev("recv " + chName(e.X))
 		return tagV("recv:"+chName(e.X), nil), true
 	}
 	h.Go = func(in *Interp, st *State, s *ast.GoStmt) {
-		pay(st).events = append(pay(st).events, "go")
+		pay(st).ev("go")
 	}
 	h.Call = func(in *Interp, st *State, call *ast.CallExpr, callee types.Object, args []Value) ([]valState, bool) {
 		p := pay(st)
+		curSt = st
 		name := qname(callee)
 		switch name {
 		case "close":
-			p.events = append(p.events, "close "+chName(call.Args[0]))
+			p.ev("close " + chName(call.Args[0]))
 			return one(st, unknownV()), true
 		case "string":
 			return nil, false
 		}
-		if sel, ok := call.Fun.(*ast.SelectorExpr); ok && m.isFile(c, sel.X) {
-			p.events = append(p.events, "call f."+sel.Sel.Name)
+		if sel, ok := call.Fun.(*ast.SelectorExpr); ok && isFile(st, sel.X) {
+			p.ev("call f." + sel.Sel.Name)
 			if sel.Sel.Name == "Read" {
-				return one(st, Value{K: vTuple, Tup: []Value{tagV("n", nil), tagV("err", nil)}}), true
+				return one(st, Value{K: vTuple, Tup: []Value{tagV("readn", nil), tagV("readerr", nil)}}), true
 			}
 			return one(st, unknownV()), true
 		}
 		if name == "parseWithOpts" {
-			p.events = append(p.events, "call parseWithOpts")
+			p.ev("call parseWithOpts")
 			return one(st, Value{K: vTuple, Tup: []Value{tagV("prog", nil), tagV("perr", nil)}}), true
 		}
 		return nil, false
 	}
 	h.Store = func(in *Interp, st *State, lhs ast.Expr, op token.Token, v Value) bool {
 		if m.ProgObj != nil && c.isObj(lhs, m.ProgObj) {
-			pay(st).events = append(pay(st).events, "store prog")
+			pay(st).ev("store prog")
 			return true
 		}
 		return false
@@ -235,8 +291,11 @@ func (c *Ctx) concHooks(m *pfModel) Hooks {
 				}
 			}
 		}
+		xv, _ := valOf(st, x)
+		isErr := (p.errObj != nil && c.isObj(x, p.errObj)) || (xv.K == vTag && xv.Tag == "readerr")
+		isN := (p.nObj != nil && c.isObj(x, p.nObj)) || (xv.K == vTag && xv.Tag == "readn")
 		switch {
-		case p.errObj != nil && c.isObj(x, p.errObj) && p.err != "":
+		case isErr && p.err != "":
 			var eq bool
 			switch {
 			case isNil(y):
@@ -252,7 +311,7 @@ func (c *Ctx) concHooks(m *pfModel) Hooks {
 			case token.NEQ:
 				res = boolTri(!eq)
 			}
-		case p.nObj != nil && c.isObj(x, p.nObj) && p.n != "":
+		case isN && p.n != "":
 			k, isC := c.intConst(y)
 			if !isC {
 				return triUnknown
@@ -298,81 +357,151 @@ type readerModel struct {
 
 func (c *Ctx) readerModel(m *pfModel) *readerModel {
 	rm := &readerModel{}
-	body := m.Reader.Body.List
-	var loop *ast.ForStmt
-	loopIdx := -1
-	for i, s := range body {
-		if fs, ok := s.(*ast.ForStmt); ok {
-			if loop != nil {
-				rm.Problems = append(rm.Problems, "more than one loop in the reader goroutine")
-			}
-			loop, loopIdx = fs, i
-		}
-	}
-	if loop == nil {
-		rm.Problems = append(rm.Problems, "no read loop in the reader goroutine")
-		return rm
-	}
-	if loop.Cond != nil || loop.Init != nil || loop.Post != nil {
-		rm.Problems = append(rm.Problems, "the read loop has a condition; expected `for { ... }`")
-	}
+	// The whole goroutine is interpreted once per abstract read outcome. Module functions that are handed the
+	// input, a channel or both (the read loop moved into a helper) are interpreted in place; the read loop — the
+	// first loop without a condition that is met — is run for one iteration: a path that would go round again
+	// ends there as "loop"; a path that leaves it runs on to the end of the goroutine.
 	deferDesc := func(call *ast.CallExpr) string {
 		if sel, ok := call.Fun.(*ast.SelectorExpr); ok && m.isFile(c, sel.X) {
 			return "f." + sel.Sel.Name
 		}
 		return c.calleeName(call)
 	}
-	for _, s := range body[:loopIdx] {
-		switch s := s.(type) {
+	// prologue: what precedes the statement that contains (or calls the helper containing) the read loop
+	body := m.Reader.Body.List
+	holdsLoop := func(st ast.Stmt) bool {
+		found := false
+		ast.Inspect(st, func(n ast.Node) bool {
+			switch n := n.(type) {
+			case *ast.ForStmt:
+				found = true
+			case *ast.CallExpr:
+				if fn, ok := c.callee(n).(*types.Func); ok && fn.Pkg() != nil && fn.Pkg().Path() == bclPath {
+					if hd := c.funcDecls[fn]; hd != nil && hd.Body != nil {
+						ast.Inspect(hd.Body, func(x ast.Node) bool {
+							if _, isFor := x.(*ast.ForStmt); isFor {
+								found = true
+							}
+							return true
+						})
+					}
+				}
+			}
+			return true
+		})
+		return found
+	}
+	loopIdx := -1
+	for i, st := range body {
+		if holdsLoop(st) {
+			loopIdx = i
+			break
+		}
+	}
+	if loopIdx < 0 {
+		rm.Problems = append(rm.Problems, "no read loop in the reader goroutine")
+		return rm
+	}
+	for _, st := range body[:loopIdx] {
+		switch st := st.(type) {
 		case *ast.DeferStmt:
-			rm.Prologue = append(rm.Prologue, "defer "+deferDesc(s.Call))
-			rm.Deferred = append(rm.Deferred, deferDesc(s.Call))
+			rm.Prologue = append(rm.Prologue, "defer "+deferDesc(st.Call))
+			rm.Deferred = append(rm.Deferred, deferDesc(st.Call))
 		case *ast.DeclStmt:
 		case *ast.AssignStmt:
 		default:
-			rm.Prologue = append(rm.Prologue, fmt.Sprintf("stmt %T", s))
+			rm.Prologue = append(rm.Prologue, fmt.Sprintf("stmt %T", st))
 		}
 	}
-	// the Read call: n, err := f.Read(...)
-	var nObj, errObj types.Object
-	ast.Inspect(loop.Body, func(n ast.Node) bool {
-		as, ok := n.(*ast.AssignStmt)
-		if !ok || len(as.Rhs) != 1 || len(as.Lhs) != 2 {
-			return true
+	h := c.concHooks(m)
+	type loopInfo struct{ seen bool }
+	li := &loopInfo{}
+	loopExit := map[*State]string{}
+	h.Inline = func(fn *types.Func) bool {
+		if fn.Pkg() == nil || fn.Pkg().Path() != bclPath {
+			return false
 		}
-		if call, ok := as.Rhs[0].(*ast.CallExpr); ok {
-			if sel, ok := call.Fun.(*ast.SelectorExpr); ok && sel.Sel.Name == "Read" && m.isFile(c, sel.X) {
-				nObj, errObj = c.objOf(as.Lhs[0]), c.objOf(as.Lhs[1])
+		sig := fn.Type().(*types.Signature)
+		for i := 0; i < sig.Params().Len(); i++ {
+			t := sig.Params().At(i).Type()
+			if _, isCh := t.Underlying().(*types.Chan); isCh {
+				return true
+			}
+			if types.TypeString(t, nil) == "github.com/wkhere/bcl.FileInput" || types.TypeString(t, nil) == "io.Reader" || types.TypeString(t, nil) == "io.ReadCloser" {
+				return true
 			}
 		}
-		return true
-	})
-	if nObj == nil || errObj == nil {
-		rm.Problems = append(rm.Problems, "the loop does not start from `n, err := f.Read(...)`")
-		return rm
+		return false
 	}
-	in := newInterp(c, c.concHooks(m))
+	h.Loop = func(in *Interp, st *State, loop ast.Stmt, bodyFn func(*State) []*State) ([]*State, bool) {
+		fs, ok := loop.(*ast.ForStmt)
+		if !ok {
+			return nil, false
+		}
+		if li.seen && false {
+			return nil, false
+		}
+		if fs.Cond != nil || fs.Init != nil || fs.Post != nil {
+			rm.Problems = append(rm.Problems, "the read loop has a condition; expected `for { ... }`")
+		}
+		var out []*State
+		for _, after := range bodyFn(st) {
+			switch after.Term {
+			case tNone, tContinue:
+				// would read again: the iteration is the whole outcome; nothing after it is recorded
+				after.Term = tNone
+				after.P.(*concPay).ev("@loop")
+				after.P.(*concPay).halted = true
+				out = append(out, after)
+			case tBreak:
+				after.Term = tNone
+				after.P.(*concPay).ev("@break")
+				out = append(out, after)
+			default:
+				after.P.(*concPay).ev("@return")
+				out = append(out, after)
+			}
+		}
+		return out, true
+	}
+	_ = loopExit
+	in := newInterp(c, h)
 	for _, e := range []string{"nil", "EOF", "other"} {
 		for _, n := range []string{"0", "pos"} {
-			st := &State{Env: map[types.Object]Value{}, P: &concPay{err: e, n: n, errObj: errObj, nObj: nObj}}
-			for _, r := range in.exec(st, loop.Body) {
+			st := &State{Env: map[types.Object]Value{}, P: &concPay{err: e, n: n}}
+			for obj, name := range m.Chans {
+				st.Env[obj] = tagV("chan", name)
+			}
+			for obj := range m.Files {
+				st.Env[obj] = tagV("file", nil)
+			}
+			// the statements from the loop's statement on (defers before it are accounted for in the prologue)
+			for _, r := range in.execBlock([]*State{st}, body[loopIdx:]) {
 				p := r.P.(*concPay)
-				o := readerOutcome{Err: e, N: n, Events: p.events}
-				switch r.Term {
-				case tNone, tContinue:
-					o.Exit = "loop"
-				case tBreak:
-					o.Exit = "break"
-					// statements after the loop
-					after := r.clone()
-					after.Term = tNone
-					for _, a := range in.execBlock([]*State{after}, body[loopIdx+1:]) {
-						o.Events = a.P.(*concPay).events
+				o := readerOutcome{Err: e, N: n}
+				for _, ev := range p.events {
+					switch ev {
+					case "@loop":
+						o.Exit = "loop"
+					case "@break":
+						if o.Exit == "" {
+							o.Exit = "break"
+						}
+					case "@return":
+						if o.Exit == "" {
+							o.Exit = "return"
+						}
+					default:
+						o.Events = append(o.Events, ev)
 					}
-				case tReturn:
-					o.Exit = "return"
-				default:
+				}
+				if o.Exit == "" {
 					o.Exit = "?"
+				}
+				// a return out of a helper that holds the loop is not the end of the goroutine: what matters is
+				// whether the goroutine went on (it did, the events after it are included) — classify by effect
+				if o.Exit == "return" && r.Term != tReturn {
+					o.Exit = "break"
 				}
 				rm.Outcomes = append(rm.Outcomes, o)
 			}
@@ -490,7 +619,7 @@ func ruleReaderProtocolMode(c *Ctx, r *Report, rule string, mode string) {
 				ok = false
 				why = fmt.Sprintf("%v then %s", o.Events, o.Exit)
 			}
-			if o.Exit == "break" && countEv(o.Events, "close inpc") != 1 {
+			if o.Exit != "loop" && countEv(o.Events, "recv done") == 0 && countEv(o.Events, "close inpc") != 1 {
 				ok = false
 				why = "the loop is left without closing inpc"
 			}
@@ -506,9 +635,9 @@ func ruleReaderProtocolMode(c *Ctx, r *Report, rule string, mode string) {
 			okOnce = false
 			why = fmt.Sprintf("outcome err=%s n=%s: %d sends on rerr, then %s (%v)", o.Err, o.N, n, o.Exit, o.Events)
 		}
-		if o.Exit == "return" && countEv(o.Events, "recv done") == 0 {
+		if o.Exit == "return" && countEv(o.Events, "recv done") == 0 && countEv(o.Events, "close inpc") != 1 {
 			okOnce = false
-			why = "the reader returns from inside the loop without having observed done"
+			why = "the reader returns from inside the loop without having observed done and without closing inpc"
 		}
 		if o.Exit == "?" {
 			okOnce = false
@@ -677,13 +806,50 @@ func ruleChunkImmutable(c *Ctx, r *Report, rule string) {
 	}
 	ok := false
 	why := "no send on inpc found"
-	ast.Inspect(m.Reader.Body, func(n ast.Node) bool {
+	// the reader's code: the goroutine body and the module helpers it hands the chunk channel to
+	chanName := map[types.Object]string{}
+	for o, n := range m.Chans {
+		chanName[o] = n
+	}
+	bodies := []ast.Node{m.Reader.Body}
+	for i := 0; i < len(bodies) && i < 6; i++ {
+		walkCalls(bodies[i], false, func(call *ast.CallExpr) {
+			fn, okF := c.callee(call).(*types.Func)
+			if !okF || fn.Pkg() == nil || fn.Pkg().Path() != bclPath {
+				return
+			}
+			hd := c.funcDecls[fn]
+			if hd == nil || hd.Body == nil {
+				return
+			}
+			passes := false
+			for k, a := range call.Args {
+				if id, isID := stripParens(a).(*ast.Ident); isID {
+					if n, isCh := chanName[c.objOf(id)]; isCh {
+						if po := c.paramObj(hd, k); po != nil {
+							chanName[po] = n
+							passes = true
+						}
+					}
+				}
+			}
+			if passes {
+				bodies = append(bodies, hd.Body)
+			}
+		})
+	}
+	inspectReader := func(f func(ast.Node) bool) {
+		for _, b := range bodies {
+			ast.Inspect(b, f)
+		}
+	}
+	inspectReader(func(n ast.Node) bool {
 		ss, isS := n.(*ast.SendStmt)
 		if !isS {
 			return true
 		}
 		id, isID := stripParens(ss.Chan).(*ast.Ident)
-		if !isID || m.Chans[c.objOf(id)] != "inpc" {
+		if !isID || chanName[c.objOf(id)] != "inpc" {
 			return true
 		}
 		call, isC := ss.Value.(*ast.CallExpr)
